@@ -130,24 +130,32 @@ static int do_seq() {
 // guards: per line "kind a b":  1 calloc(nobj,size)  2 posix_memalign(align,size)  3 aligned_malloc(size,align)  4 malloc(size)
 // output: 0 = refused (null / error code), 1 = succeeded ; plus errno-class
 static int do_guards() {
-    std::vector<i128> c; Out o;
+    std::vector<i128> c; Out o; Watchdog wd(8.0);
     while (read_case(c)) {
+        wd.arm(&o);
         for (size_t i = 0; i + 2 < c.size(); i += 3) {
             int k = (int)c[i]; size_t a = (size_t)c[i + 1], b = (size_t)c[i + 2];
             errno = 0; void* p = nullptr; int rc = 0;
             if (k == 1) p = scalable_calloc(a, b);
             else if (k == 2) { rc = scalable_posix_memalign(&p, a, b); if (rc) p = nullptr; }
             else if (k == 3) p = scalable_aligned_malloc(a, b);
+            else if (k == 5) {   // realloc(malloc(a), b): the old block must survive a refused request
+                void* old = scalable_malloc(a); if (old) memset(old, 0x77, a < 4096 ? a : 4096);
+                errno = 0; p = scalable_realloc(old, b);
+                if (!p && old) { for (size_t j = 0; j < (a < 4096 ? a : 4096); ++j) if (((unsigned char*)old)[j] != 0x77) { o.word("OLD-BLOCK-CORRUPTED"); break; } scalable_free(old); }
+                if (p && scalable_msize(p) < b) { o.word("MSIZE-BELOW-REQUEST"); }
+            }
             else p = scalable_malloc(a);
             int cls = k == 2 ? (rc == EINVAL ? 2 : rc == ENOMEM ? 1 : 0) : (p ? 0 : (errno == EINVAL ? 2 : errno == ENOMEM ? 1 : 3));
             o.put(p ? 1 : 0); o.put(cls);
             if (p) {
                 // a successful huge allocation must really be that big: touch first and last byte
-                size_t n = k == 1 ? a * b : (k == 2 ? b : a);
+                size_t n = k == 1 ? a * b : (k == 2 || k == 5 ? b : a);
                 if (n) { ((volatile char*)p)[0] = 1; ((volatile char*)p)[n - 1] = 1; }
                 scalable_free(p);
             }
         }
+        wd.disarm();
         o.flush();
     }
     return 0;
@@ -244,8 +252,42 @@ static int do_mt(int T, unsigned seed, int nops) {
     return 0;
 }
 
+// xfree: "size align count second_size keepalive": thread A allocates `count` aligned blocks, thread B (a different thread) frees every
+// other one, A allocates `count` blocks of second_size; every block is checked against all live ones (shadow map), msize, alignment.
+static int do_xfree() {
+    std::vector<i128> c; Out o;
+    while (read_case(c)) {
+        size_t size = (size_t)c[0], align = (size_t)c[1]; int count = (int)c[2]; size_t size2 = (size_t)c[3]; bool keepalive = c[4] != 0;
+        std::map<char*, size_t> live; long overlap = 0, msz = 0, misal = 0, corrupt = 0;
+        std::vector<char*> first;
+        auto track = [&](void* p, size_t n, size_t al) {
+            if (!p) return; char* cp = (char*)p;
+            if ((uintptr_t)p % (al ? al : (n <= 8 ? 8 : 16))) misal++;
+            if (scalable_msize(p) < n) msz++;
+            for (auto& l : live) if (cp < l.first + l.second && l.first < cp + n) overlap++;
+            live[cp] = n; memset(p, 0x5A, n);
+        };
+        for (int i = 0; i < count; ++i) { void* p = align ? scalable_aligned_malloc(size, align) : scalable_malloc(size); track(p, size, align); first.push_back((char*)p); }
+        std::atomic<int> phase{0};
+        std::thread B([&] { for (int i = 0; i < count; i += 2) if (first[i]) { scalable_free(first[i]); } phase = 1; while (keepalive && phase.load() != 2) std::this_thread::yield(); });
+        while (phase.load() != 1) std::this_thread::yield();
+        if (!keepalive) B.join();
+        for (int i = 0; i < count; i += 2) if (first[i]) { live.erase(first[i]); first[i] = nullptr; }
+        std::vector<char*> second;
+        for (int i = 0; i < count; ++i) { void* p = scalable_malloc(size2); track(p, size2, 0); second.push_back((char*)p); }
+        for (auto& l : live) for (size_t j = 0; j < l.second; ++j) if ((unsigned char)l.first[j] != 0x5A) { corrupt++; break; }
+        phase = 2; if (keepalive) B.join();
+        for (char* p : first) if (p) scalable_free(p);
+        for (char* p : second) if (p) scalable_free(p);
+        o.word("OVERLAP"); o.put(overlap); o.word("MSIZE"); o.put(msz); o.word("MISALIGNED"); o.put(misal); o.word("CORRUPT"); o.put(corrupt);
+        o.flush();
+    }
+    return 0;
+}
+
 int main(int argc, char** argv) {
     std::string m = argc > 1 ? argv[1] : "";
+    if (m == "xfree") return do_xfree();
     if (m == "pool") return do_pool();
     if (m == "mt") return do_mt(atoi(argv[2]), (unsigned)atoi(argv[3]), atoi(argv[4]));
     if (m == "params") return do_params();
